@@ -61,9 +61,17 @@ if TYPE_CHECKING:
 class _SocketConnector:
     factory: Callable[[], Awaitable[tuple[AsyncStreamTransport, SocketProxy]]]
     scope: CancelScope
+    socket: _socket.socket | None = None  # The socket given by the user, until the factory takes its ownership.
+
+    def cancel(self) -> None:
+        self.scope.cancel()
+        socket, self.socket = self.socket, None
+        if socket is not None:
+            socket.close()
 
     async def get(self) -> tuple[AsyncStreamTransport, SocketProxy] | None:
         result: tuple[AsyncStreamTransport, SocketProxy] | None = None
+        self.socket = None
         with self.scope:
             result = await self.factory()
         return result
@@ -258,6 +266,7 @@ class AsyncTCPNetworkClient(AbstractAsyncNetworkClient[_T_SentPacket, _T_Receive
         self.__socket_connector: _SocketConnector | None = _SocketConnector(
             factory=_utils.make_callback(self.__create_socket, socket_factory),
             scope=backend.open_cancel_scope(),
+            socket=__arg if isinstance(__arg, _socket.socket) else None,
         )
         self.__socket_connector_lock: ILock = backend.create_lock()
 
@@ -428,7 +437,7 @@ class AsyncTCPNetworkClient(AbstractAsyncNetworkClient[_T_SentPacket, _T_Receive
         Can be safely called multiple times.
         """
         if self.__socket_connector is not None:
-            self.__socket_connector.scope.cancel()
+            self.__socket_connector.cancel()
             self.__socket_connector = None
         try:
             await self.__send_lock.acquire()
